@@ -65,6 +65,7 @@ type cnet struct {
 	c     *cluster
 	links map[[2]uint64]int
 	gates map[[2]uint64]chan bool // hold gates: true = deliver, false = fail
+	filters map[[2]uint64]func(cmd interface{}) bool // per-link content filter: false = the call fails like a down link
 	rpcTO time.Duration
 	holdTO time.Duration
 }
@@ -99,6 +100,35 @@ func (n *cnet) release(from, to uint64, deliver bool) {
 	if g != nil {
 		g <- deliver
 	}
+}
+
+func (n *cnet) setFilter(from, to uint64, f func(cmd interface{}) bool) {
+	n.mu.Lock()
+	defer n.mu.Unlock()
+	if n.filters == nil {
+		n.filters = map[[2]uint64]func(cmd interface{}) bool{}
+	}
+	if f == nil {
+		delete(n.filters, [2]uint64{from, to})
+	} else {
+		n.filters[[2]uint64{from, to}] = f
+	}
+}
+
+func (n *cnet) filterOf(from, to uint64) func(cmd interface{}) bool {
+	n.mu.Lock()
+	defer n.mu.Unlock()
+	return n.filters[[2]uint64{from, to}]
+}
+
+// tokens released on a link that no held call has consumed yet
+func (n *cnet) pendingTokens(from, to uint64) int {
+	n.mu.Lock()
+	defer n.mu.Unlock()
+	if g := n.gates[[2]uint64{from, to}]; g != nil {
+		return len(g)
+	}
+	return 0
 }
 
 var errLink = errors.New("link down")
@@ -158,6 +188,9 @@ func (t *ctrans) call(target raft.ServerAddress, cmd interface{}, body io.Reader
 	}
 	sendSeq := c.h.add(ev)
 	mode := c.net.mode(t.id, to)
+	if f := c.net.filterOf(t.id, to); f != nil && !f(cmd) {
+		return nil, errLink
+	}
 	switch mode {
 	case linkDown:
 		return nil, errLink
